@@ -57,3 +57,8 @@ def TArray(elem):
 def TRegex(kind):
     """a compiled regular expression (opaque to the prover; drawn from a small pool concretely)"""
     return T('Any', 'regex', kind)
+
+
+def TUnion(alts):
+    """alts = ((label, type), ...)"""
+    return T('Union', tuple(alts))
